@@ -1,11 +1,26 @@
 use crate::driver::Monitor;
 
 pub mod c01;
+pub mod c03;
+pub mod c04;
+pub mod c13;
+pub mod c14;
 
-pub fn all() -> Vec<Box<dyn Monitor>> {
-	vec![Box::new(c01::C01::new())]
+/// field path with the concrete port / item index removed (stable signatures)
+pub fn c13_generic(path: &str) -> String {
+	let p = path.split(':').next().unwrap_or(path).split_whitespace().next().unwrap_or("");
+	p.split('.').filter(|c| !(c.len() == 2 && c.starts_with('P'))).map(|c| if c.starts_with("item[") { "item[k]" } else { c }).collect::<Vec<_>>().join(".")
 }
 
+pub const IDS: &[&str] = &["C01", "C03", "C04", "C13", "C14"];
+
 pub fn get(id: &str) -> Option<Box<dyn Monitor>> {
-	all().into_iter().find(|m| m.id() == id)
+	Some(match id {
+		"C01" => Box::new(c01::C01::new()),
+		"C03" => Box::new(c03::C03::new()),
+		"C04" => Box::new(c04::C04::new()),
+		"C13" => Box::new(c13::C13::new()),
+		"C14" => Box::new(c14::C14::new()),
+		_ => return None,
+	})
 }
